@@ -255,6 +255,8 @@ Ev(prog, e, st) ==
                    [] e.f = "mk"   -> V(Log(as.st, <<"mk", e.tag>>), [tr |-> e.tag])
                    [] e.f = "use"  -> V(Log(as.st, <<"use", as.v[1].tr>>), Unit)
                    [] e.f = "optif" -> V(Log(as.st, <<"optif", e.tag>>), IF as.v[1] THEN Some(as.v[2]) ELSE None)
+                   \* a registered METHOD `recv.selm(tag, y)`: the receiver is the first operand (evaluated before y)
+                   [] e.f = "sel"  -> V(Log(as.st, <<"sel", e.tag, as.v[1], as.v[2]>>), as.v[1])
                    [] e.f = "tick" -> V(Log(as.st, <<"tick", e.tag>>), Unit))
       [] e.k = "ret" ->
             IF e.e = <<>> THEN R(st, Unit)
